@@ -69,6 +69,7 @@ def run(ctx):
     rule_to_chords(ctx, cmod, pmod, model, all_keys, table)
     rule_determine(ctx, cmod, pmod, model, table)
     rule_substitutions(ctx, pmod, model)
+    rule_substitute_shares(ctx, pmod, cmod)
     rule_argument_untouched(ctx, pmod, model)
     ctx.floor("R-C08-1", 30 * 16)
     ctx.floor("R-C08-3", 40)
@@ -541,3 +542,46 @@ def rule_argument_untouched(ctx, pmod, model):
                           arg, orig, [(p.kind, short(repr(p.value), 60)) for p in paths][:2]))
             if not ok:
                 break
+
+
+# the bare diminished triads among the substitutes of the dominant share one note with it (set aside as outside the
+# property: DESIGN 8.3); every other substitute of a plain or seventh numeral shares two
+SUBSTITUTE_EXCEPTIONS = {("V", "IIdim"), ("V", "IVdim"), ("V7", "IIdim"), ("V7", "IVdim")}
+
+
+def rule_substitute_shares(ctx, pmod, cmod):
+    """substitute(): whatever it offers for a plain numeral or its seventh shares two notes with the numeral's triad (the
+    harmonic, relative and diminished substitutions all do), in key C, with the real to_chords."""
+    R = "R-C08-5"
+    fsub, ftc = pmod.func("substitute"), pmod.func("to_chords")
+    ctx.touch(fsub)
+    for acc in ("", "b", "#"):
+        for n in NUMERALS:
+            for suf in ("", "7"):
+                text = acc + n + suf
+
+                def go(it, text=text, n=n, acc=acc):
+                    tri = it.call_function(ftc, [[acc + n], "C"], {})
+                    res = it.call_function(fsub, [[text], 0], {})
+                    return tri, res, [it.call_function(ftc, [[r], "C"], {}) for r in res]
+                try:
+                    ps = explore(lambda ch: Interp(ctx.repo, ch, max_depth=60), go)
+                except CannotDecide as e:
+                    raise AnalysisError("substitute([%r], 0): %s" % (text, e))
+                ok, why = len(ps) == 1 and ps[0].kind == "return", "outcome %s" % [(p.kind, short(repr(p.value), 80)) for p in ps]
+                if ok:
+                    tri, res, chords_ = ps[0].value
+                    base = {nd.pitch_of_concrete(x) % 12 for x in tri[0]} if tri and tri[0] else set()
+                    bad = []
+                    for r, ch in zip(res, chords_):
+                        if not ch or not ch[0]:
+                            bad.append((r, "builds no chord"))
+                            continue
+                        shared = len(base & {nd.pitch_of_concrete(x) % 12 for x in ch[0]})
+                        if shared < 2 and (n + suf, r) not in SUBSTITUTE_EXCEPTIONS and acc == "":
+                            bad.append((r, "shares %d notes with %s %s" % (shared, acc + n, tri[0])))
+                        elif shared < 2 and acc != "" and (n + suf, r[len(acc):] if r.startswith(acc) else r) not in SUBSTITUTE_EXCEPTIONS:
+                            bad.append((r, "shares %d notes with %s %s" % (shared, acc + n, tri[0])))
+                    if bad:
+                        ok, why = False, "substitute([%r], 0) offers %s" % (text, bad[:3])
+                ctx.check(ok, R, "substitute.shares[%s]" % text, fsub.where(), "substitute([%r], 0) in C" % text, why)
